@@ -11,6 +11,7 @@ from .terms import I, Bc
 from .values import *  # noqa
 from .state import State, OutOfReach
 from .exec import Engine, Obligation, LoopSpec  # noqa
+from . import prelude
 
 
 class View:
@@ -426,6 +427,9 @@ class FnContract:
                         # instances of separately proved lemmas (Layer B) offered as hints for this clause
                         s2 = s2.clone()
                         for hi, h in enumerate(cl[3]):
+                            if isinstance(h, prelude.DefInstance):
+                                s2.assume(h.term)        # the defining equation itself, instantiated: nothing to prove
+                                continue
                             if isinstance(h, tuple) and h[0] == 'def':
                                 # a fact that follows from a definition: proved on the spot (with the definitions), then used
                                 eng.emit(s2, '%s/path%d/%s/%s/def-hint%d' % (fname, pi, c.name, label, hi), h[1], kind='hint', tags=tags)
